@@ -9,6 +9,7 @@ mod eng_comb;
 mod eng_reader;
 mod eng_renumber;
 mod eng_scan;
+mod eng_stream;
 mod eng_writer;
 mod gen_cnf;
 
@@ -31,6 +32,7 @@ pub fn run_line(line: &str) -> (String, Vec<String>) {
         "writer" => eng_writer::run_case(line),
         "renumber" => eng_renumber::run_case(line),
         "cnf" => eng_cnf::run_case(line),
+        "stream" => eng_stream::run_case(line),
         _ => ("unknown-engine".into(), vec![]),
     }
 }
@@ -73,6 +75,7 @@ fn main() {
                     "scan" => eng_scan::gen_case(&mut r, thorough),
                     "writer" => eng_writer::gen_case(&mut r, thorough),
                     "renumber" => eng_renumber::gen_case(&mut r, thorough),
+                    "stream" => eng_stream::gen_case(&mut r, thorough),
                     "cnf" => {
                         if opt == "sweep" {
                             for l in gen_cnf::fault_sweep(&mut r) {
